@@ -86,6 +86,8 @@ def table():
     B('trot2', [C(0.3), C('rad'), V(2, v2)])
     B('xyt2tr', [V(3, v3)])
     B('trexp2', [V(3, [1.0, 2.0, 0.3], lens=(1, 3))])
+    B('trexp2', [V(3, [1.0, 2.0, 1.0], lens=(1, 3)), C(0.7)])
+    B('trexp2', [V(3, [0.6, 0.8, 0.0], lens=(1, 3)), C(0.7)])
     # transforms3d
     B('transl', [V(3, v3)])
     B('trotx', [C(0.3), C('rad'), V(3, v3)])
@@ -101,6 +103,10 @@ def table():
     B('oa2tr', [V(3, v3), V(3, v3b)])
     B('trexp', [V(6, v6, lens=(3, 6))])
     B('trexp', [V(3, v3b, lens=(3, 6))])
+    # the two-argument form (unit twist, joint value): the same vector forms
+    B('trexp', [V(6, [0.5, -1.0, 0.25, 0.0, 0.6, 0.8], lens=(3, 6)), C(0.7)])
+    B('trexp', [V(6, [0.6, 0.0, 0.8, 0.0, 0.0, 0.0], lens=(3, 6)), C(0.7)])
+    B('trexp', [V(3, [0.0, 0.6, 0.8], lens=(3, 6)), C(0.7)])
     B('delta2tr', [V(6, v6)])
     # transformsNd
     B('skew', [V(3, v3, lens=(1, 3))])
